@@ -46,6 +46,8 @@ SUITES = {
         "rand_churn": ("rand", dict(n=16, n_ops=1200, S=[0, 1], profile="churn", sweep="light", max_live=12)),
         # generations in the hundreds on one index, batches of hundreds of entities
         "gen_churn": ("genchurn", dict(n=12)),
+        # more than a hundred lazy actions (some queuing further ones) applied by one maintain
+        "lazy_flood": ("lazyflood", dict(n=10)),
     },
     "thorough": {
         "mc_alloc": ("mc", dict(MaxIdx=3, S=0, MaxH=6, MaxOps=8, MaxC=0, MaxGen=3, fams=["alloc", "defer", "batch"])),
@@ -55,6 +57,7 @@ SUITES = {
         "rand_mixed": ("rand", dict(n=600, n_ops=200, S=[1, 2, 3], profile="mixed", sweep="full")),
         "rand_churn": ("rand", dict(n=64, n_ops=4000, S=[0, 1], profile="churn", sweep="light", max_live=16)),
         "gen_churn": ("genchurn", dict(n=90)),
+        "lazy_flood": ("lazyflood", dict(n=80)),
     },
 }
 
@@ -65,7 +68,7 @@ PROP_SUITES = {
     "C17": ["mc_alloc", "rand_mixed", "rand_churn", "gen_churn"],
     "C05": ["mc_store", "mc_store2", "mc_lazy", "rand_mixed", "gen_churn"],
     "C03": ["mc_store", "mc_store2", "rand_mixed", "gen_churn"],
-    "C09": ["mc_lazy", "rand_mixed"],
+    "C09": ["mc_lazy", "rand_mixed", "lazy_flood"],
 }
 
 
@@ -142,7 +145,7 @@ def run_suite(name, tier, seed):
     os.makedirs(workdir, exist_ok=True)
     res = {"suite": name, "kind": kind, "params": params, "cache_hit": False}
     tid0 = {"mc_alloc": 1000000, "mc_store": 2000000, "mc_store2": 3000000, "mc_lazy": 4000000,
-            "rand_mixed": 5000000, "rand_churn": 6000000, "gen_churn": 7000000}.get(name, 9000000)
+            "rand_mixed": 5000000, "rand_churn": 6000000, "gen_churn": 7000000, "lazy_flood": 8000000}.get(name, 9000000)
     if kind == "mc":
         p = dict(params)
         variants = p.pop("variants", 1)
@@ -152,6 +155,8 @@ def run_suite(name, tier, seed):
         res["tlc_scripts"] = len(tlc_scripts)
     elif kind == "genchurn":
         scripts = G.gen_churn_scripts(seed, params["n"], tid0)
+    elif kind == "lazyflood":
+        scripts = G.lazy_flood_scripts(seed, params["n"], tid0)
     else:
         scripts = G.random_scripts(seed, params["n"], params["n_ops"], params["S"], tid0,
                                    profile=params["profile"], sweep=params["sweep"],
